@@ -58,6 +58,17 @@ ScriptLoopN == << [op |-> "cif_create", cif |-> "c1"],
                   [op |-> "create_loop", cont |-> "h1", category |-> "NULL", names |-> <<"_x">>],
                   [op |-> "loop_add_packet", loop |-> "l1", packet |-> << <<"_x", "s1">> >>],
                   [op |-> "loop_add_packet", loop |-> "l1", packet |-> << <<"_x", "s2">> >>] >>
+\* two blocks that number their loops differently: in a the scalar _x is loop 0 and the one-packet loop (_y) is loop 1; in
+\* b the scalar _y is loop 0 and the empty loop (_x) is loop 1.  A statement that selects a loop's items by loop number
+\* alone picks up names of the other block
+ScriptCross == << [op |-> "cif_create", cif |-> "c1"],
+                  [op |-> "create_block", cif |-> "c1", code |-> "a"],
+                  [op |-> "create_block", cif |-> "c1", code |-> "b"],
+                  [op |-> "set_value", cont |-> "h1", name |-> "_x", v |-> "s1"],
+                  [op |-> "create_loop", cont |-> "h1", category |-> "k", names |-> <<"_y">>],
+                  [op |-> "loop_add_packet", loop |-> "l1", packet |-> << <<"_y", "s1">> >>],
+                  [op |-> "set_value", cont |-> "h2", name |-> "_y", v |-> "s1"],
+                  [op |-> "create_loop", cont |-> "h2", category |-> "k", names |-> <<"_x">>] >>
 MCCSlots2 == <<"h1", "h2">>
 MCLSlots2 == <<"l1", "l2">>
 MCCSlots1 == <<"h1">>
